@@ -221,7 +221,7 @@ pub fn n_values(tier: Tier) -> u64 {
     values_per_doc(tier, 40, 3000)
 }
 pub fn n_units(tier: Tier) -> u64 {
-    ALL_DOCS.len() as u64 * n_values(tier)
+    n_docs() * n_values(tier)
 }
 
 fn subs_for(rows: &[TagRow], w: &[Option<Vec<u64>>]) -> Vec<(usize, u64, bool)> {
